@@ -1,7 +1,7 @@
 (* Soundness of the equivalence checker Model/PegEquiv.v against the interpreter Model/Peg.v
    (memoization off): if every pair of R passes its local check (or is semantically related by
    hypothesis), the two grammars give related outcomes on every input, for every oracle. *)
-From TxV Require Import Core.Base Model.PegSyntax Model.Peg Model.PegEquiv.
+From TxV Require Import Core.Base Model.PegSyntax Model.Peg Proofs.PegProofs Proofs.PegMemo Model.PegEquiv.
 
 (* ---------------------------------------------------------------- values *)
 Definition tt (r : res) : Prop := truthy r = true /\ flatten r <> [].
@@ -278,9 +278,12 @@ End Unfold.
 (* ---------------------------------------------------------------- the simulation *)
 Section Sound.
 Variables g1 g2 : grammar.
+Variable ne : list nat.
 Variable R : list (nat * nat * bool).
 Variable input : list N.
 Variable orc : nat -> nat -> option nat.
+(* the oracle hypothesis: the regular expressions listed in [ne] never match the empty string *)
+Hypothesis Hne : forall o p, In o ne -> orc o p <> Some 0.
 
 Notation P1 := (parse g1 input orc false).
 Notation P2 := (parse g2 input orc false).
@@ -291,6 +294,7 @@ Definition orel (i j : nat) (c : bool) (s : st) (o1 o2 : out) : Prop :=
   match o1, o2 with
   | Ok r1 s1, Ok r2 s2 =>
     s1 = s2 /\ vrel c r1 r2 /\ (forall d, efree g1 d i = true -> fnn r1) /\ (forall d, efree g2 d j = true -> fnn r2)
+    /\ (forall d, atrue g1 ne d i = true -> truthy r1 = true)
   | Fail s1, Fail s2 =>
     eqx s1 s2 /\ (nonterminal g1 i = true -> pos s1 = pos s) /\ (nonterminal g2 j = true -> pos s2 = pos s)
   | Abort _, Abort _ => True
@@ -305,7 +309,7 @@ Definition sem_ok (p : nat * nat * bool) : Prop :=
   | (i, j, c) => forall fa fb psq1 psq2 s, orel i j c s (P1 fa i psq1 s) (P2 fb j psq2 s)
   end.
 
-Hypothesis HR : forall p, In p R -> local_ok g1 g2 R p = true \/ sem_ok p.
+Hypothesis HR : forall p, In p R -> local_ok g1 g2 ne R p = true \/ sem_ok p.
 Hypothesis HF : frame_ok g1 g2 R = true.
 
 Lemma pin_any_In i j : pin_any R i j = true -> exists c, In (i, j, c) R.
@@ -324,8 +328,8 @@ Qed.
 Lemma orel_weaken i j c s o1 o2 : orel i j c s o1 o2 -> orel i j false s o1 o2.
 Proof.
   intros [H|[H|H]]; [left; exact H | right; left; exact H | right; right].
-  destruct o1, o2; try exact H. destruct H as (A & B & C & D). repeat split; try assumption.
-  - apply B. - apply B. - apply B. - discriminate.
+  destruct o1, o2; try exact H. destruct H as (A & B & C & D & E).
+  split; [exact A|]. split; [eapply vrel_weaken; exact B|]. split; [exact C|]. split; [exact D | exact E].
 Qed.
 
 Section Step.
@@ -343,46 +347,67 @@ Lemma kid_strong fa fb i j : fa + fb <= n -> pin_strong R i j = true ->
 Proof. intros L H psq1 psq2 s. apply pin_strong_In in H. apply (IH fa fb L i j true H). Qed.
 
 (* ---------------- sequences *)
-Definition srel (a1 a2 : list res) (o1 o2 : out) : Prop :=
+(* Q: a claim that the increment of the first side is not empty *)
+Definition srel (a1 a2 : list res) (Q : Prop) (o1 o2 : out) : Prop :=
   o1 = Abort 0 \/ o2 = Abort 0 \/
   match o1, o2 with
-  | Ok r1 s1, Ok r2 s2 => s1 = s2 /\ exists d1 d2, r1 = RList (a1 ++ d1) /\ r2 = RList (a2 ++ d2) /\ accrel d1 d2
+  | Ok r1 s1, Ok r2 s2 =>
+    s1 = s2 /\ exists d1 d2, r1 = RList (a1 ++ d1) /\ r2 = RList (a2 ++ d2) /\ accrel d1 d2 /\ (Q -> d1 <> [])
   | Fail s1, Fail s2 => eqx s1 s2
   | Abort _, Abort _ => True
   | _, _ => False
   end.
 
-Lemma srel_shift a1 a2 e1 e2 o1 o2 : accrel e1 e2 -> srel (a1 ++ e1) (a2 ++ e2) o1 o2 -> srel a1 a2 o1 o2.
+Lemma srel_shift a1 a2 e1 e2 (Q Q' : Prop) o1 o2 :
+  accrel e1 e2 -> (Q -> e1 <> [] \/ Q') -> srel (a1 ++ e1) (a2 ++ e2) Q' o1 o2 -> srel a1 a2 Q o1 o2.
 Proof.
-  intros E [H|[H|H]]; [left; exact H | right; left; exact H | right; right].
-  destruct o1, o2; try exact H. destruct H as (A & d1 & d2 & B & C & D). split; [exact A|].
+  intros E HQ [H|[H|H]]; [left; exact H | right; left; exact H | right; right].
+  destruct o1, o2; try exact H. destruct H as (A & d1 & d2 & B & C & D & F). split; [exact A|].
   exists (e1 ++ d1), (e2 ++ d2).
-  split; [rewrite app_assoc; exact B | split; [rewrite app_assoc; exact C | apply accrel_app; assumption]].
+  split; [rewrite app_assoc; exact B | split; [rewrite app_assoc; exact C | split; [apply accrel_app; assumption|]]].
+  intros q X. apply app_eq_nil in X as [X1 X2]. destruct (HQ q) as [N|N]; [contradiction | apply (F N X2)].
 Qed.
 
-Lemma srel_done a1 a2 s : srel a1 a2 (Ok (RList a1) s) (Ok (RList a2) s).
-Proof. right; right. split; [reflexivity|]. exists [], []. rewrite !app_nil_r. split; [reflexivity | split; [reflexivity | apply accrel_nil]]. Qed.
+Lemma srel_done a1 a2 (Q : Prop) s : ~ Q -> srel a1 a2 Q (Ok (RList a1) s) (Ok (RList a2) s).
+Proof.
+  intro NQ. right; right. split; [reflexivity|]. exists [], []. rewrite !app_nil_r.
+  split; [reflexivity | split; [reflexivity | split; [apply accrel_nil | intro q; contradiction]]].
+Qed.
+
+Definition anyT (l : list nat) : Prop := exists d, existsb (atrue g1 ne d) l = true.
+
+Lemma anyT_nil : ~ anyT [].
+Proof. intros [d H]. discriminate. Qed.
+
+Lemma anyT_cons x t : anyT (x :: t) -> (exists d, atrue g1 ne d x = true) \/ anyT t.
+Proof. intros [d H]. cbn [existsb] in H. apply orb_true_iff in H as [H|H]; [left | right]; exists d; exact H. Qed.
+
+Lemma anyT_app l l' : anyT (l ++ l') -> anyT l \/ anyT l'.
+Proof. intros [d H]. rewrite existsb_app in H. apply orb_true_iff in H as [H|H]; [left | right]; exists d; exact H. Qed.
 
 (* one element of a sequence loop, then the continuation *)
 Lemma seq_head fa fb x y t1 t2 psq1 psq2 a1 a2 s :
   fa + fb <= n -> pin_any R x y = true ->
-  (forall b1 b2 s', srel b1 b2 (seq_loop (P1 fa) psq1 t1 b1 s') (seq_loop (P2 fb) psq2 t2 b2 s')) ->
-  srel a1 a2 (seq_loop (P1 fa) psq1 (x :: t1) a1 s) (seq_loop (P2 fb) psq2 (y :: t2) a2 s).
+  (forall b1 b2 s', srel b1 b2 (anyT t1) (seq_loop (P1 fa) psq1 t1 b1 s') (seq_loop (P2 fb) psq2 t2 b2 s')) ->
+  srel a1 a2 (anyT (x :: t1)) (seq_loop (P1 fa) psq1 (x :: t1) a1 s) (seq_loop (P2 fb) psq2 (y :: t2) a2 s).
 Proof.
   intros L H K. pose proof (kid_any fa fb x y L H psq1 psq2 s) as O. cbn [seq_loop].
   destruct O as [O|[O|O]]; [rewrite O; left; reflexivity | rewrite O; right; left; reflexivity |].
   destruct (P1 fa x psq1 s) as [r1 s1|s1|w1], (P2 fb y psq2 s) as [r2 s2|s2|w2]; try contradiction.
-  - destruct O as (E & V & _). subst s2. rewrite !push_app.
-    eapply srel_shift; [eapply accrel_push; exact V | apply K].
+  - destruct O as (E & V & _ & _ & AT). subst s2. rewrite !push_app.
+    eapply srel_shift; [eapply accrel_push; exact V | | apply K].
+    intro q. apply anyT_cons in q as [[d q]|q]; [left | right; exact q].
+    rewrite (AT d q). discriminate.
   - right; right. apply O.
   - right; right. exact I.
 Qed.
 
 Lemma seq_zip l1 : forall l2, zip_in R false l1 l2 = true -> forall fa fb, fa + fb <= n ->
-  forall psq1 psq2 a1 a2 s, srel a1 a2 (seq_loop (P1 fa) psq1 l1 a1 s) (seq_loop (P2 fb) psq2 l2 a2 s).
+  forall psq1 psq2 a1 a2 s,
+  srel a1 a2 (anyT l1) (seq_loop (P1 fa) psq1 l1 a1 s) (seq_loop (P2 fb) psq2 l2 a2 s).
 Proof.
   induction l1 as [|x t1 IHl]; intros [|y t2] Z fa fb L psq1 psq2 a1 a2 s; simpl in Z; try discriminate.
-  - apply srel_done.
+  - apply srel_done. apply anyT_nil.
   - apply andb_true_iff in Z as [Z1 Z2]. apply seq_head; try assumption.
     intros b1 b2 s'. apply IHl; assumption.
 Qed.
@@ -396,19 +421,227 @@ Proof.
   intro H. inversion H. exists nd. repeat split; assumption.
 Qed.
 
-Lemma seq_align_sim m : forall l1 l2 fa fb, fa + fb <= n -> seq_align g2 R m l1 l2 = true ->
-  forall psq1 psq2 a1 a2 s, srel a1 a2 (seq_loop (P1 fa) psq1 l1 a1 s) (seq_loop (P2 fb) psq2 l2 a2 s).
+Lemma atrue_seq0 d i a : get_node g1 i = Some a -> n_kind a = KSeq -> atrue g1 ne d i = true -> anyT (n_kids a).
+Proof.
+  intros G K A. destruct d; simpl in A; rewrite G, K in A; destruct (n_suppress a); try discriminate.
+  exists d. exact A.
+Qed.
+
+(* ---------------- `x (s x')*` against `e+[t]` *)
+Lemma star_sep_node g st s x : star_sep g st = Some (s, x) ->
+  exists nd q, get_node g st = Some nd /\ n_kind nd = KStar /\ plain nd = true /\ n_suppress nd = false /\
+               n_kids nd = [q] /\ n_sep nd = None /\ seq_kids g q = Some [s; x].
+Proof.
+  unfold star_sep. destruct (get_node g st) as [nd|]; [|discriminate].
+  destruct (n_kind nd) eqn:K; try discriminate. destruct (n_kids nd) as [|q [|? ?]] eqn:Ki; try discriminate.
+  destruct (n_sep nd) eqn:Se; [discriminate|].
+  destruct (plain nd) eqn:Pl; simpl; [|discriminate]. destruct (n_suppress nd) eqn:Su; simpl; [discriminate|].
+  destruct (seq_kids g q) as [[|a [|b [|? ?]]]|] eqn:SK; try discriminate.
+  intro H. inversion H; subst. exists nd, q. repeat split; assumption.
+Qed.
+
+Lemma plus_sep_node g y e t : plus_sep g y = Some (e, t) ->
+  exists nd, get_node g y = Some nd /\ n_kind nd = KPlus /\ plain nd = true /\ n_suppress nd = false /\
+             n_kids nd = [e] /\ n_sep nd = Some t.
+Proof.
+  unfold plus_sep. destruct (get_node g y) as [nd|]; [|discriminate].
+  destruct (n_kind nd) eqn:K; try discriminate. destruct (n_kids nd) as [|e' [|? ?]] eqn:Ki; try discriminate.
+  destruct (n_sep nd) as [t'|] eqn:Se; [|discriminate].
+  destruct (plain nd) eqn:Pl; simpl; [|discriminate]. destruct (n_suppress nd) eqn:Su; simpl; [discriminate|].
+  intro H. inversion H; subst. exists nd. repeat split; assumption.
+Qed.
+
+Definition lrel (b2 : list res) (o1 o2 : out) : Prop :=
+  o1 = Abort 0 \/ o2 = Abort 0 \/
+  match o1, o2 with
+  | Ok r1 s1, Ok r2 s2 =>
+    s1 = s2 /\ exists c1 c2, r1 = RList c1 /\ r2 = RList c2 /\ accok c1 /\ accok c2 /\ (b2 <> [] -> c2 <> [])
+  | Abort _, Abort _ => True
+  | _, _ => False
+  end.
+
+Lemma lrel_mono b2 b2' o1 o2 : b2' <> [] -> lrel b2' o1 o2 -> lrel b2 o1 o2.
+Proof.
+  intros N [H|[H|H]]; [left; exact H | right; left; exact H | right; right].
+  destruct o1, o2; try exact H. destruct H as (A & c1 & c2 & B & C & D & E & F). split; [exact A|].
+  exists c1, c2. repeat split; try assumption. intros _. apply F. exact N.
+Qed.
+
+Lemma accok_push (b : list res) r c r' : accok b -> vrel c r r' -> accok (if truthy r then b ++ [r] else b).
+Proof.
+  intros B (G & _ & _). destruct (truthy r) eqn:T; [|exact B].
+  apply Forall_app. split; [exact B|]. constructor; [split; [exact T | apply G; exact T] | constructor].
+Qed.
+
+Lemma accok_push2 (b : list res) r c r' : accok b -> vrel c r' r -> accok (if truthy r then b ++ [r] else b).
+Proof.
+  intros B (_ & G & _). destruct (truthy r) eqn:T; [|exact B].
+  apply Forall_app. split; [exact B|]. constructor; [split; [exact T | apply G; exact T] | constructor].
+Qed.
+
+Lemma sep_loop q qn s x' e t fa1 fb :
+  fa1 + fb <= n -> get_node g1 q = Some qn -> n_kind qn = KSeq -> plain qn = true -> n_suppress qn = false ->
+  n_kids qn = [s; x'] -> pin_any R s t = true -> pin_any R x' e = true -> atrue g1 ne EDEPTH x' = true ->
+  forall k1 k2 f1 b1 b2 s0, accok b1 -> accok b2 ->
+  lrel b2 (rep_loop (P1 fa1) q None false k1 f1 b1 s0) (rep_loop (P2 fb) e (Some t) true k2 false b2 s0).
+Proof.
+  intros L Gq Kq Plq Suq Kiq Hs Hx Hat. induction k1 as [|k1 IHk]; intros k2 f1 b1 b2 s0 B1 B2; [left; reflexivity|].
+  destruct k2 as [|k2]; [right; left; reflexivity|].
+  rewrite !rep_loop_S. unfold elemf at 1.
+  destruct fa1 as [|fa2]; [left; reflexivity|].
+  pose proof (seq_node_cases g1 input orc fa2 q qn false s0 Gq Kq Plq Suq) as C. rewrite Kiq in C. cbn [seq_loop] in C.
+  assert (L2 : fa2 + fb <= n) by lia.
+  pose proof (kid_any fa2 fb s t L2 Hs true false s0) as O.
+  destruct O as [O|[O|O]].
+  - rewrite O in C. rewrite C. left; reflexivity.
+  - rewrite O. right; left; reflexivity.
+  - destruct (P1 fa2 s true s0) as [sr1 s1|s1|w1], (P2 fb t false s0) as [sr2 s2|s2|w2]; try contradiction.
+    + destruct O as (E & V & _). subst s2. unfold elemf.
+      pose proof (kid_any fa2 fb x' e L2 Hx true false s1) as O2.
+      destruct O2 as [O2|[O2|O2]].
+      * rewrite O2 in C. rewrite C. left; reflexivity.
+      * rewrite O2. right; left; reflexivity.
+      * destruct (P1 fa2 x' true s1) as [r1 s2|s2|w1'], (P2 fb e false s1) as [r2 s2'|s2'|w2']; try contradiction.
+        -- destruct O2 as (E2 & V2 & _ & _ & AT). subst s2'.
+           assert (T1 : truthy r1 = true) by (apply (AT EDEPTH Hat)).
+           pose proof V2 as (G1 & G2 & TT & _). assert (T2 : truthy r2 = true) by congruence.
+           rewrite T1 in C. rewrite T2.
+           assert (AQ : accok ((if truthy sr1 then [] ++ [sr1] else []) ++ [r1])).
+           { apply Forall_app. split; [apply (accok_push [] sr1 false sr2); [constructor | exact V]|].
+             constructor; [split; [exact T1 | apply G1; exact T1] | constructor]. }
+           assert (NQ : (if truthy sr1 then [] ++ [sr1] else []) ++ [r1] <> []).
+           { intro X. apply app_eq_nil in X as [_ X]. discriminate. }
+           pose proof (post_list_tt q qn _ Suq AQ NQ) as TV.
+           destruct ((if truthy sr1 then [] ++ [sr1] else []) ++ [r1]) as [|z zs] eqn:EZ; [congruence|].
+           rewrite C. destruct TV as [TV1 TV2]. rewrite TV1.
+           eapply lrel_mono; [|apply IHk].
+           ++ intro X. apply app_eq_nil in X as [_ X]. discriminate.
+           ++ apply Forall_app. split; [exact B1 | constructor; [split; assumption | constructor]].
+           ++ apply Forall_app. split; [apply (accok_push2 b2 sr2 false sr1); assumption|].
+              constructor; [split; [exact T2 | apply G2; exact T2] | constructor].
+        -- rewrite C. cbn [andb]. destruct O2 as (E2 & _).
+           rewrite (eqx_set_pos (pos s0) (set_pos (pos s0) (set_pos (pos s0) s2)) s2').
+           ++ right; right. split; [reflexivity|]. eexists; eexists. split; [reflexivity|]. split; [reflexivity|].
+              split; [exact B1|]. split; [apply (accok_push2 b2 sr2 false sr1); assumption|].
+              intro N. destruct (truthy sr2); [|exact N]. intro X. apply app_eq_nil in X as [_ X]. discriminate.
+           ++ apply eqx_set_pos_l. apply eqx_set_pos_l. exact E2.
+        -- rewrite C. right; right. exact I.
+    + rewrite C. cbn [andb]. destruct O as (E & _).
+      rewrite (eqx_set_pos (pos s0) (set_pos (pos s0) (set_pos (pos s0) s1)) s2).
+      * right; right. split; [reflexivity|]. exists b1, b2. repeat split; try assumption. intro N; exact N.
+      * apply eqx_set_pos_l. apply eqx_set_pos_l. exact E.
+    + rewrite C. right; right. exact I.
+Qed.
+
+Definition rrel (a1 : list res) (o1 o2 : out) : Prop :=
+  o1 = Abort 0 \/ o2 = Abort 0 \/
+  match o1, o2 with
+  | Ok r1 s1, Ok r2 s2 =>
+    s1 = s2 /\ exists d1 d2, r1 = RList (a1 ++ d1) /\ r2 = RList d2 /\ accok d1 /\ accok d2 /\ d1 <> [] /\ d2 <> []
+  | Fail s1, Fail s2 => eqx s1 s2
+  | Abort _, Abort _ => True
+  | _, _ => False
+  end.
+
+Lemma sepform_core x st s x' e t fa fb k2 psq1 a1 s0 :
+  fa + fb <= n -> star_sep g1 st = Some (s, x') ->
+  pin_any R x e = true -> pin_any R x' e = true -> pin_any R s t = true ->
+  atrue g1 ne EDEPTH x = true -> atrue g1 ne EDEPTH x' = true ->
+  rrel a1 (seq_loop (P1 fa) psq1 [x; st] a1 s0) (rep_loop (P2 fb) e (Some t) true k2 true [] s0).
+Proof.
+  intros L SS Hx Hx' Hs Ax Ax'. destruct (star_sep_node g1 st s x' SS) as (stn & q & Gst & Kst & Plst & Sust & Kist & Sest & SK).
+  destruct (seq_kids_node g1 q _ SK) as (qn & Gq & Kq & Plq & Suq & Kiq).
+  destruct k2 as [|k2]; [right; left; reflexivity|]. rewrite rep_loop_S. unfold elemf. cbn [seq_loop].
+  pose proof (kid_any fa fb x e L Hx psq1 false s0) as O.
+  destruct O as [O|[O|O]]; [rewrite O; left; reflexivity | rewrite O; right; left; reflexivity |].
+  destruct (P1 fa x psq1 s0) as [r1 s1|s1|w1], (P2 fb e false s0) as [r2 s2|s2|w2]; try contradiction.
+  - destruct O as (E & V & _ & _ & AT). subst s2. assert (T1 : truthy r1 = true) by (apply (AT EDEPTH Ax)).
+    pose proof V as (G1 & G2 & TT & _). assert (T2 : truthy r2 = true) by congruence. rewrite T1, T2.
+    destruct fa as [|fa1]; [left; reflexivity|].
+    rewrite (parse_nonmatch g1 input orc fa1 st stn psq1 s1 Gst) by (rewrite Kst; reflexivity).
+    rewrite (body_rep (P1 fa1) fa1 stn q s1 (or_introl Kst) Plst Kist). rewrite Kst, Sest.
+    assert (L1 : fa1 + fb <= n) by lia.
+    assert (B2 : accok ([] ++ [r2])) by (constructor; [split; [exact T2 | apply G2; exact T2] | constructor]).
+    pose proof (sep_loop q qn s x' e t fa1 fb L1 Gq Kq Plq Suq Kiq Hs Hx' Ax' fa1 k2 true [] ([] ++ [r2]) s1
+                         (Forall_nil _) B2) as Z.
+    destruct Z as [Z|[Z|Z]]; [rewrite Z; left; reflexivity | rewrite Z; right; left; reflexivity |].
+    destruct (rep_loop (P1 fa1) q None false fa1 true [] s1) as [v1 s2|s2|w1'],
+             (rep_loop (P2 fb) e (Some t) true k2 false ([] ++ [r2]) s1) as [v2 s2'|s2'|w2']; try contradiction.
+    + destruct Z as (E2 & c1 & c2 & E3 & E4 & C1 & C2 & N2). subst s2' v1 v2. right; right.
+      split; [reflexivity|].
+      assert (A1 : accok [r1]) by (constructor; [split; [exact T1 | apply G1; exact T1] | constructor]).
+      destruct c1 as [|z zs].
+      * rewrite post_nil, Sust. cbn [truthy]. exists [r1], c2.
+        repeat split; try assumption; try discriminate. apply N2. discriminate.
+      * pose proof (post_list_tt st stn (z :: zs) Sust C1) as TV. assert (NZ : z :: zs <> []) by discriminate.
+        specialize (TV NZ). destruct TV as [TV1 TV2]. rewrite TV1.
+        exists ([r1] ++ [post st stn (RList (z :: zs))]), c2. rewrite app_assoc.
+        repeat split; try assumption; try discriminate.
+        -- constructor; [split; [exact T1 | apply G1; exact T1] | constructor; [split; assumption | constructor]].
+        -- apply N2. discriminate.
+    + right; right. exact I.
+  - cbn [andb]. right; right. apply eqx_set_pos_r. apply O.
+  - right; right. exact I.
+Qed.
+
+Lemma sepform_seq fa fb x st t1 y t2 psq1 psq2 a1 a2 s :
+  fa + fb <= n -> sepform g1 g2 ne R x (st :: t1) y = true ->
+  (forall b1 b2 s', srel b1 b2 (anyT t1) (seq_loop (P1 fa) psq1 t1 b1 s') (seq_loop (P2 fb) psq2 t2 b2 s')) ->
+  srel a1 a2 (anyT (x :: st :: t1)) (seq_loop (P1 fa) psq1 (x :: st :: t1) a1 s) (seq_loop (P2 fb) psq2 (y :: t2) a2 s).
+Proof.
+  intros L SF K. unfold sepform in SF.
+  destruct (star_sep g1 st) as [[s0 x']|] eqn:SS; [|discriminate].
+  destruct (plus_sep g2 y) as [[e t]|] eqn:PS; [|discriminate].
+  apply andb_true_iff in SF as [SF Ax']. apply andb_true_iff in SF as [SF Ax].
+  apply andb_true_iff in SF as [SF Hs]. apply andb_true_iff in SF as [Hx Hx'].
+  destruct (plus_sep_node g2 y e t PS) as (yn & Gy & Ky & Ply & Suy & Kiy & Sey).
+  change (x :: st :: t1) with ([x; st] ++ t1) at 2. rewrite seq_loop_app.
+  destruct fb as [|fb]; [right; left; reflexivity|].
+  set (S1 := seq_loop (P1 fa) psq1 [x; st] a1 s).
+  cbn [seq_loop].
+  rewrite (parse_nonmatch g2 input orc fb y yn psq2 s Gy) by (rewrite Ky; reflexivity).
+  rewrite (body_rep (P2 fb) fb yn e s (or_intror Ky) Ply Kiy). rewrite Ky, Sey.
+  unfold S1. clear S1.
+  assert (L1 : fa + fb <= n) by lia.
+  pose proof (sepform_core x st s0 x' e t fa fb fb psq1 a1 s L1 SS Hx Hx' Hs Ax Ax') as Z.
+  destruct Z as [Z|[Z|Z]]; [rewrite Z; left; reflexivity | rewrite Z; right; left; reflexivity |].
+  destruct (seq_loop (P1 fa) psq1 [x; st] a1 s) as [r1 s1|s1|w1],
+           (rep_loop (P2 fb) e (Some t) true fb true [] s) as [r2 s2|s2|w2]; try contradiction.
+  - destruct Z as (E & d1 & d2 & E1 & E2 & D1 & D2 & N1 & N2). subst s2 r1 r2.
+    pose proof (post_list_tt y yn d2 Suy D2 N2) as [TV1 TV2]. rewrite TV1.
+    eapply srel_shift with (e1 := d1) (e2 := [post y yn (RList d2)]) (Q' := anyT t1).
+    + repeat split; try assumption.
+      * constructor; [split; assumption | constructor].
+      * intro X. contradiction.
+      * discriminate.
+    + intros _. left. exact N1.
+    + apply K.
+  - right; right. apply eqx_set_pos_r. exact Z.
+  - right; right. exact I.
+Qed.
+
+
+Lemma seq_align_sim m : forall l1 l2 fa fb, fa + fb <= n -> seq_align g1 g2 ne R m l1 l2 = true ->
+  forall psq1 psq2 a1 a2 s,
+  srel a1 a2 (anyT l1) (seq_loop (P1 fa) psq1 l1 a1 s) (seq_loop (P2 fb) psq2 l2 a2 s).
 Proof.
   induction m as [|m IHm]; intros l1 l2 fa fb L A psq1 psq2 a1 a2 s; [discriminate|].
   cbn [seq_align] in A. destruct l1 as [|x t1], l2 as [|y t2]; try discriminate.
-  - apply srel_done.
-  - apply orb_true_iff in A as [A|A].
+  - apply srel_done. apply anyT_nil.
+  - apply orb_true_iff in A as [A|A]; [apply orb_true_iff in A as [A|A]; [apply orb_true_iff in A as [A|A]|]|].
     + apply andb_true_iff in A as [A1 A2]. apply seq_head; try assumption.
       intros b1 b2 s'. apply IHm; assumption.
+    + apply andb_true_iff in A as [A1 A2]. destruct t1 as [|st t1]; [discriminate A1|]. cbn [tl] in A2.
+      apply sepform_seq; try assumption. intros b1 b2 s'. apply IHm; assumption.
     + destruct (seq_kids g2 y) as [ks|] eqn:SK; [|discriminate].
       apply andb_true_iff in A as [A A3]. apply andb_true_iff in A as [A1 A2].
       destruct (seq_kids_node g2 y ks SK) as (nd & G & K & Pl & Su & Ki).
-      rewrite <- (firstn_skipn (length ks) (x :: t1)). rewrite seq_loop_app.
+      assert (QS : anyT (x :: t1) -> anyT (firstn (length ks) (x :: t1)) \/ anyT (skipn (length ks) (x :: t1))).
+      { intro q. apply anyT_app. rewrite firstn_skipn. exact q. }
+      assert (EQ : seq_loop (P1 fa) psq1 (x :: t1) a1 s =
+                   seq_loop (P1 fa) psq1 (firstn (length ks) (x :: t1) ++ skipn (length ks) (x :: t1)) a1 s)
+        by (rewrite firstn_skipn; reflexivity).
+      rewrite EQ. clear EQ. rewrite seq_loop_app.
       cbn [seq_loop]. destruct fb as [|fb]; [right; left; reflexivity|].
       assert (L' : fa + fb <= n) by lia.
       pose proof (seq_zip _ _ A2 fa fb L' psq1 true a1 [] s) as Z.
@@ -418,23 +651,66 @@ Proof.
       * rewrite Z in C. rewrite C. right; left; reflexivity.
       * destruct (seq_loop (P1 fa) psq1 (firstn (length ks) (x :: t1)) a1 s) as [r1 s1|s1|w1],
                  (seq_loop (P2 fb) true ks [] s) as [r2 s2|s2|w2]; try contradiction.
-        -- destruct Z as (E & d1 & d2 & E1 & E2 & D). subst s2 r1 r2. cbn [app] in C. rewrite C.
+        -- destruct Z as (E & d1 & d2 & E1 & E2 & D & F). subst s2 r1 r2. cbn [app] in C. rewrite C.
            assert (L2 : fa + S fb <= n) by lia.
            destruct d2 as [|v d2].
-           ++ cbn [truthy]. eapply srel_shift with (e1 := d1) (e2 := []).
+           ++ cbn [truthy]. eapply srel_shift with (e1 := d1) (e2 := []) (Q' := anyT (skipn (length ks) (x :: t1))).
               ** exact D.
+              ** intro q. destruct (QS q) as [q1|q2]; [left; apply F; exact q1 | right; exact q2].
               ** rewrite app_nil_r. apply IHm; assumption.
            ++ pose proof (post_list_tt y nd (v :: d2) Su (proj1 (proj2 D))) as T.
               assert (N : v :: d2 <> []) by discriminate. specialize (T N).
               destruct T as [T1 T2]. rewrite T1.
-              eapply srel_shift with (e1 := d1) (e2 := [post y nd (RList (v :: d2))]).
+              eapply srel_shift with (e1 := d1) (e2 := [post y nd (RList (v :: d2))])
+                                     (Q' := anyT (skipn (length ks) (x :: t1))).
               ** destruct D as (D1 & D2 & D3). repeat split.
                  --- exact D1.
                  --- constructor; [split; assumption | constructor].
                  --- intro H. apply D3 in H. discriminate.
                  --- discriminate.
+              ** intro q. destruct (QS q) as [q1|q2]; [left; apply F; exact q1 | right; exact q2].
               ** apply IHm; assumption.
         -- rewrite C. right; right. apply eqx_set_pos_r. apply eqx_set_pos_r. exact Z.
+        -- rewrite C. right; right. exact I.
+    + (* a plain sequence of the first grammar stands for a segment of the second one's children *)
+      destruct (seq_kids g1 x) as [ks|] eqn:SK; [|discriminate].
+      apply andb_true_iff in A as [A A3]. apply andb_true_iff in A as [A1 A2].
+      destruct (seq_kids_node g1 x ks SK) as (nd & G & K & Pl & Su & Ki).
+      assert (EQ : seq_loop (P2 fb) psq2 (y :: t2) a2 s =
+                   seq_loop (P2 fb) psq2 (firstn (length ks) (y :: t2) ++ skipn (length ks) (y :: t2)) a2 s)
+        by (rewrite firstn_skipn; reflexivity).
+      rewrite EQ. clear EQ. rewrite seq_loop_app.
+      cbn [seq_loop]. destruct fa as [|fa]; [left; reflexivity|].
+      assert (L' : fa + fb <= n) by lia.
+      pose proof (seq_zip _ _ A2 fa fb L' true psq2 [] a2 s) as Z.
+      pose proof (seq_node_cases g1 input orc fa x nd psq1 s G K Pl Su) as C. rewrite Ki in C.
+      assert (QX : anyT (x :: t1) -> anyT ks \/ anyT t1).
+      { intro q. apply anyT_cons in q as [[d q]|q]; [left | right; exact q].
+        rewrite <- Ki. apply (atrue_seq0 d x nd G K q). }
+      destruct Z as [Z|[Z|Z]].
+      * rewrite Z in C. rewrite C. left; reflexivity.
+      * rewrite Z. right; left; reflexivity.
+      * destruct (seq_loop (P1 fa) true ks [] s) as [r1 s1|s1|w1],
+                 (seq_loop (P2 fb) psq2 (firstn (length ks) (y :: t2)) a2 s) as [r2 s2|s2|w2]; try contradiction.
+        -- destruct Z as (E & d1 & d2 & E1 & E2 & D & F). subst s2 r1 r2. cbn [app] in C. rewrite C.
+           assert (L2 : S fa + fb <= n) by lia.
+           destruct d1 as [|v d1].
+           ++ cbn [truthy]. eapply srel_shift with (e1 := []) (e2 := d2) (Q' := anyT t1).
+              ** exact D.
+              ** intro q. destruct (QX q) as [q1|q2]; [exfalso; apply (F q1); reflexivity | right; exact q2].
+              ** rewrite app_nil_r. apply IHm; assumption.
+           ++ pose proof (post_list_tt x nd (v :: d1) Su (proj1 D)) as T.
+              assert (N : v :: d1 <> []) by discriminate. specialize (T N).
+              destruct T as [T1 T2]. rewrite T1.
+              eapply srel_shift with (e1 := [post x nd (RList (v :: d1))]) (e2 := d2) (Q' := anyT t1).
+              ** destruct D as (D1 & D2 & D3). repeat split.
+                 --- constructor; [split; assumption | constructor].
+                 --- exact D2.
+                 --- discriminate.
+                 --- intro H. apply D3 in H. discriminate.
+              ** intros _. left. discriminate.
+              ** apply IHm; assumption.
+        -- rewrite C. right; right. apply eqx_set_pos_l. apply eqx_set_pos_l. exact Z.
         -- rewrite C. right; right. exact I.
 Qed.
 
@@ -466,7 +742,7 @@ Proof.
     pose proof (kid_strong fa fb x y L Z1 false false s) as O. cbn [choice_loop].
     destruct O as [O|[O|O]]; [rewrite O; left; reflexivity | rewrite O; right; left; reflexivity |].
     destruct (P1 fa x false s) as [r1 s1|s1|w1], (P2 fb y false s) as [r2 s2|s2|w2]; try contradiction.
-    + destruct O as (E & V & N1 & N2). subst s2. destruct V as (G1 & G2 & T & Nn). specialize (Nn eq_refl).
+    + destruct O as (E & V & N1 & N2 & AT). subst s2. destruct V as (G1 & G2 & T & Nn). specialize (Nn eq_refl).
       rewrite <- Nn. destruct (is_none r1) eqn:I1.
       * apply IHl; assumption.
       * right; right. split; [reflexivity | right]. split; apply fnn_tt; try assumption.
@@ -485,24 +761,27 @@ Definition sep_rel (sp1 sp2 : option nat) : Prop :=
 
 Lemma rep_sim e1 e2 sp1 sp2 plus fa fb : fa + fb <= n -> pin_any R e1 e2 = true -> sep_rel sp1 sp2 ->
   forall k1 k2 first a1 a2 s,
-  srel a1 a2 (rep_loop (P1 fa) e1 sp1 plus k1 first a1 s) (rep_loop (P2 fb) e2 sp2 plus k2 first a2 s).
+  srel a1 a2 (first = true /\ plus = true /\ exists d, atrue g1 ne d e1 = true)
+       (rep_loop (P1 fa) e1 sp1 plus k1 first a1 s) (rep_loop (P2 fb) e2 sp2 plus k2 first a2 s).
 Proof.
   intros L He Hs. induction k1 as [|k1 IHk]; intros k2 first a1 a2 s; [left; reflexivity|].
   destruct k2 as [|k2]; [right; left; reflexivity|].
-  assert (EL : forall first cp b1 b2 s1,
-    srel b1 b2 (elemf (P1 fa) e1 sp1 plus k1 first cp b1 s1) (elemf (P2 fb) e2 sp2 plus k2 first cp b2 s1)).
-  { intros fst cp b1 b2 s1. unfold elemf.
+  assert (EL : forall cp b1 b2 s1,
+    srel b1 b2 (first = true /\ plus = true /\ exists d, atrue g1 ne d e1 = true)
+         (elemf (P1 fa) e1 sp1 plus k1 first cp b1 s1) (elemf (P2 fb) e2 sp2 plus k2 first cp b2 s1)).
+  { intros cp b1 b2 s1. unfold elemf.
     pose proof (kid_any fa fb e1 e2 L He false false s1) as O.
     destruct O as [O|[O|O]]; [rewrite O; left; reflexivity | rewrite O; right; left; reflexivity |].
     destruct (P1 fa e1 false s1) as [r1 s2|s2|w1], (P2 fb e2 false s1) as [r2 s2'|s2'|w2]; try contradiction.
-    - destruct O as (E & V & _). subst s2'. pose proof V as (G1 & G2 & T & _). rewrite <- T.
+    - destruct O as (E & V & _ & _ & AT). subst s2'. pose proof V as (G1 & G2 & T & _). rewrite <- T.
       destruct (truthy r1) eqn:T1.
-      + eapply srel_shift with (e1 := [r1]) (e2 := [r2]); [|apply IHk].
-        pose proof (accrel_push r1 r2 false V) as AP. rewrite <- T, T1 in AP. exact AP.
-      + apply srel_done.
-    - destruct O as (E & _). destruct (plus && fst)%bool.
+      + eapply srel_shift with (e1 := [r1]) (e2 := [r2]); [| |apply IHk].
+        * pose proof (accrel_push r1 r2 false V) as AP. rewrite <- T, T1 in AP. exact AP.
+        * intros _. left. discriminate.
+      + apply srel_done. intros (_ & _ & d & q). specialize (AT d q). congruence.
+    - destruct O as (E & _). destruct (plus && first)%bool eqn:PF.
       + right; right. apply eqx_set_pos_l. apply eqx_set_pos_r. exact E.
-      + rewrite (eqx_set_pos cp _ _ E). apply srel_done.
+      + rewrite (eqx_set_pos cp _ _ E). apply srel_done. intros (F1 & F2 & _). subst. discriminate.
     - right; right. exact I. }
   rewrite !rep_loop_S. destruct sp1 as [x|], sp2 as [y|]; try contradiction.
   - destruct first; [apply EL|].
@@ -510,8 +789,10 @@ Proof.
     destruct O as [O|[O|O]]; [rewrite O; left; reflexivity | rewrite O; right; left; reflexivity |].
     destruct (P1 fa x false s) as [r1 s1|s1|w1], (P2 fb y false s) as [r2 s2|s2|w2]; try contradiction.
     + destruct O as (E & V & _). subst s2. rewrite !push_app.
-      eapply srel_shift; [eapply accrel_push; exact V | apply EL].
-    + destruct O as (E & _). cbn [andb]. rewrite andb_false_r. rewrite (eqx_set_pos (pos s) _ _ E). apply srel_done.
+      eapply srel_shift; [eapply accrel_push; exact V | | apply EL].
+      intros (F1 & _). discriminate.
+    + destruct O as (E & _). cbn [andb]. rewrite andb_false_r. rewrite (eqx_set_pos (pos s) _ _ E).
+      apply srel_done. intros (F1 & _). discriminate.
     + right; right. exact I.
   - apply EL.
 Qed.
@@ -562,15 +843,16 @@ Qed.
 (* ---------------- whole nodes *)
 Definition starlike (nd : node) : Prop := n_kind nd = KStar \/ n_kind nd = KPlus.
 
-(* related outcomes of the two [body] calls of a pair of non-terminal nodes a, b *)
-Definition brel (a b : node) (o1 o2 : out) : Prop :=
+(* related outcomes of the two [body] calls of a pair of non-terminal nodes a, b;
+   Q: the claim that the first body returns a non-empty list *)
+Definition brel (a b : node) (Q : Prop) (o1 o2 : out) : Prop :=
   o1 = Abort 0 \/ o2 = Abort 0 \/
   match o1, o2 with
   | Ok r1 s1, Ok r2 s2 =>
     s1 = s2 /\
-    ((r1 = RNone /\ r2 = RNone)
-     \/ (r1 = RList [RNone] /\ r2 = RList [RNone])
-     \/ (r1 = RList [] /\ r2 = RList [] /\ starlike a /\ starlike b)
+    ((r1 = RNone /\ r2 = RNone /\ ~ Q)
+     \/ (r1 = RList [RNone] /\ r2 = RList [RNone] /\ ~ Q)
+     \/ (r1 = RList [] /\ r2 = RList [] /\ starlike a /\ starlike b /\ ~ Q)
      \/ (exists d1 d2, r1 = RList d1 /\ r2 = RList d2 /\ accok d1 /\ accok d2 /\ d1 <> [] /\ d2 <> []))
   | Fail s1, Fail s2 => eqx s1 s2
   | Abort _, Abort _ => True
@@ -598,32 +880,45 @@ Qed.
 Lemma nonterminal_of g i nd : get_node g i = Some nd -> is_match_kind (n_kind nd) = false -> nonterminal g i = true.
 Proof. intros G M. unfold nonterminal. rewrite G, M. reflexivity. Qed.
 
-Lemma finish i j c a b fa fb psq1 psq2 s :
+Lemma atrue_unsup g d i nd : get_node g i = Some nd -> atrue g ne d i = true -> n_suppress nd = false.
+Proof. intros G A. destruct d; simpl in A; rewrite G in A; destruct (n_suppress nd); try reflexivity; discriminate. Qed.
+
+Lemma finish i j c a b (Q : Prop) fa fb psq1 psq2 s :
   get_node g1 i = Some a -> get_node g2 j = Some b ->
   is_match_kind (n_kind a) = false -> is_match_kind (n_kind b) = false ->
   n_suppress a = n_suppress b ->
-  brel a b (body (P1 fa) fa a s) (body (P2 fb) fb b s) ->
+  ((exists d, atrue g1 ne d i = true) -> Q) ->
+  brel a b Q (body (P1 fa) fa a s) (body (P2 fb) fb b s) ->
   orel i j c s (P1 (S fa) i psq1 s) (P2 (S fb) j psq2 s).
 Proof.
-  intros G1 G2 M1 M2 Su B.
+  intros G1 G2 M1 M2 Su HQ B.
   rewrite (parse_nonmatch g1 input orc fa i a psq1 s G1 M1), (parse_nonmatch g2 input orc fb j b psq2 s G2 M2).
   destruct B as [B|[B|B]]; [rewrite B; left; reflexivity | rewrite B; right; left; reflexivity |].
   destruct (body (P1 fa) fa a s) as [r1 s1|s1|w1], (body (P2 fb) fb b s) as [r2 s2|s2|w2]; try contradiction.
   - right; right. destruct B as (E & B). subst s2. split; [reflexivity|].
-    destruct B as [[E1 E2]|[[E1 E2]|[(E1 & E2 & K1 & K2)|(d1 & d2 & E1 & E2 & A1 & A2 & N1 & N2)]]]; subst r1 r2.
-    + rewrite !post_none. split; [apply vrel_none|]. split; intros; apply fnn_none.
-    + rewrite !post_optnone. split; [apply vrel_none|]. split; intros; apply fnn_none.
+    assert (NA : ~ Q -> forall d, atrue g1 ne d i = true -> truthy RNone = true).
+    { intros NQ d q. exfalso. apply NQ. apply HQ. exists d. exact q. }
+    destruct B as [(E1 & E2 & NQ)|[(E1 & E2 & NQ)|[(E1 & E2 & K1 & K2 & NQ)|(d1 & d2 & E1 & E2 & A1 & A2 & N1 & N2)]]];
+      subst r1 r2.
+    + rewrite !post_none. split; [apply vrel_none|]. split; [intros; apply fnn_none|]. split; [intros; apply fnn_none|].
+      apply NA; exact NQ.
+    + rewrite !post_optnone. split; [apply vrel_none|]. split; [intros; apply fnn_none|].
+      split; [intros; apply fnn_none|]. apply NA; exact NQ.
     + rewrite !post_nil. rewrite <- Su. destruct (n_suppress a) eqn:Sa.
-      * split; [apply vrel_none|]. split; intros; apply fnn_none.
-      * split; [apply vrel_nil|]. split; intros d Ef.
-        -- rewrite (efree_starlike g1 d i a G1 K1 Ef) in Sa. discriminate.
-        -- rewrite (efree_starlike g2 d j b G2 K2 Ef) in Su. discriminate.
+      * split; [apply vrel_none|]. split; [intros; apply fnn_none|]. split; [intros; apply fnn_none|].
+        apply NA; exact NQ.
+      * split; [apply vrel_nil|]. split; [|split].
+        -- intros d Ef. rewrite (efree_starlike g1 d i a G1 K1 Ef) in Sa. discriminate.
+        -- intros d Ef. rewrite (efree_starlike g2 d j b G2 K2 Ef) in Su. discriminate.
+        -- intros d q. exfalso. apply NQ. apply HQ. exists d. exact q.
     + destruct (n_suppress a) eqn:Sa.
       * rewrite (post_suppress i a _ Sa), (post_suppress j b _ (eq_sym Su)).
-        split; [apply vrel_none|]. split; intros; apply fnn_none.
+        split; [apply vrel_none|]. split; [intros; apply fnn_none|]. split; [intros; apply fnn_none|].
+        intros d q. rewrite (atrue_unsup g1 d i a G1 q) in Sa. discriminate.
       * pose proof (post_list_tt i a d1 Sa A1 N1) as T1.
         pose proof (post_list_tt j b d2 (eq_sym Su) A2 N2) as T2.
-        split; [apply vrel_tt; assumption|]. split; intros; apply fnn_of_tt; assumption.
+        split; [apply vrel_tt; assumption|]. split; [intros; apply fnn_of_tt; assumption|].
+        split; [intros; apply fnn_of_tt; assumption|]. intros _ _. apply T1.
   - right; right. split; [apply eqx_set_pos_l; apply eqx_set_pos_r; exact B|].
     split; intros _; apply pos_set_pos.
   - right; right. exact I.
@@ -666,6 +961,29 @@ Proof.
   - apply Nat.eqb_eq in H. subst. split; reflexivity.
 Qed.
 
+Lemma term_atrue i a psq s1 : get_node g1 i = Some a ->
+  forall d v t, atrue g1 ne d i = true -> term_parse input orc i (n_kind a) psq s1 = Ok v t -> truthy v = true.
+Proof.
+  intros G d v t A. assert (A' : (if n_suppress a then false else
+            match n_kind a with
+            | KStr _ _ | KEOF | KChoice => true
+            | KRegex o => existsb (Nat.eqb o) ne
+            | _ => match n_kind a with KSeq | KPlus => true | _ => false end
+            end) = true).
+  { destruct d; simpl in A; rewrite G in A; destruct (n_suppress a); try discriminate;
+      destruct (n_kind a); try discriminate; try reflexivity; exact A. }
+  clear A. destruct (n_suppress a); [discriminate|]. destruct (n_kind a) as [| | | | | | | | | |str oid|o]; simpl; try discriminate.
+  - destruct (Nat.eqb (length input) (pos s1)); [|discriminate]. intro H; inversion H; reflexivity.
+  - destruct (match oid with Some o => match orc o (pos s1) with Some _ => true | None => false end
+                           | None => is_prefix str (skipn (pos s1) input) end); [|discriminate].
+    intro H; inversion H; reflexivity.
+  - destruct (orc o (pos s1)) as [len|] eqn:O; [|discriminate].
+    destruct (Nat.eqb len 0) eqn:Z.
+    + apply Nat.eqb_eq in Z. subst len. exfalso. apply existsb_exists in A' as [o' [I E]].
+      apply Nat.eqb_eq in E. subst o'. apply (Hne o (pos s1) I O).
+    + intro H; inversion H; reflexivity.
+Qed.
+
 Lemma step_term i j c a b fa fb psq1 psq2 s :
   fa + fb <= n -> get_node g1 i = Some a -> get_node g2 j = Some b ->
   is_match_kind (n_kind a) = true -> n_kind a = n_kind b -> n_suppress a = n_suppress b ->
@@ -679,14 +997,18 @@ Proof.
   destruct (match_pre g1 input (P1 fa) fa s) as [r1 s1|s1|w1], (match_pre g2 input (P2 fb) fb s) as [r2 s2|s2|w2];
     try contradiction.
   - subst s2. rewrite <- K. pose proof (term_rel (n_kind a) i j psq1 psq2 s1) as T.
+    pose proof (term_atrue i a psq1 s1 G1) as TA.
     destruct (term_parse input orc i (n_kind a) psq1 s1) as [v1 t1|t1|x1],
              (term_parse input orc j (n_kind a) psq2 s1) as [v2 t2|t2|x2]; try contradiction.
     + right; right. destruct T as (E & T). subst t2. split; [reflexivity|]. rewrite <- Su.
-      destruct (n_suppress a).
-      * split; [apply vrel_none|]. split; intros; apply fnn_none.
+      destruct (n_suppress a) eqn:Sa.
+      * split; [apply vrel_none|]. split; [intros; apply fnn_none|]. split; [intros; apply fnn_none|].
+        intros d q. rewrite (atrue_unsup g1 d i a G1 q) in Sa. discriminate.
       * destruct T as [[E1 E2]|[T1 T2]].
-        -- subst. split; [apply vrel_none|]. split; intros; apply fnn_none.
-        -- split; [apply vrel_tt; assumption|]. split; intros; apply fnn_of_tt; assumption.
+        -- subst. split; [apply vrel_none|]. split; [intros; apply fnn_none|]. split; [intros; apply fnn_none|].
+           intros d q. apply (TA d RNone t1 q eq_refl).
+        -- split; [apply vrel_tt; assumption|]. split; [intros; apply fnn_of_tt; assumption|].
+           split; [intros; apply fnn_of_tt; assumption|]. intros _ _. apply T1.
     + right; right. simpl in T. subst t2. split; [apply eqx_refl|].
       unfold nonterminal. rewrite G1, G2, M, M2. split; discriminate.
     + right; right. exact I.
@@ -696,34 +1018,75 @@ Qed.
 Lemma accok1 r : tt r -> accok [r].
 Proof. intro T. constructor; [exact T | constructor]. Qed.
 
+Lemma atrue_seq d i a : get_node g1 i = Some a -> n_kind a = KSeq -> atrue g1 ne d i = true -> anyT (n_kids a).
+Proof.
+  intros G K A. destruct d; simpl in A; rewrite G, K in A; destruct (n_suppress a); try discriminate.
+  exists d. exact A.
+Qed.
+
+Lemma atrue_kind_false d i a : get_node g1 i = Some a ->
+  (n_kind a = KOpt \/ n_kind a = KStar) -> atrue g1 ne d i = true -> False.
+Proof.
+  intros G K A. destruct d; simpl in A; rewrite G in A; destruct (n_suppress a); try discriminate;
+    destruct K as [K|K]; rewrite K in A; discriminate.
+Qed.
+
+Lemma atrue_plus d i a x : get_node g1 i = Some a -> n_kind a = KPlus -> n_kids a = [x] ->
+  atrue g1 ne d i = true -> exists d', atrue g1 ne d' x = true.
+Proof.
+  intros G K Ki A. destruct d; simpl in A; rewrite G, K in A; destruct (n_suppress a); try discriminate.
+  rewrite Ki in A. exists d. exact A.
+Qed.
+
 Lemma step_struct i j c a b fa fb psq1 psq2 s :
-  fa + fb <= n -> get_node g1 i = Some a -> get_node g2 j = Some b -> struct_ok g1 g2 R a b = true ->
+  fa + fb <= n -> get_node g1 i = Some a -> get_node g2 j = Some b -> struct_ok g1 g2 ne R a b = true ->
   orel i j c s (P1 (S fa) i psq1 s) (P2 (S fb) j psq2 s).
 Proof.
   intros L G1 G2 H. unfold struct_ok in H.
   apply andb_true_iff in H as [H HK]. apply andb_true_iff in H as [H Su]. apply andb_true_iff in H as [Pa Pb].
   apply eqb_prop in Su.
   destruct (n_kind a) eqn:Ka; destruct (n_kind b) eqn:Kb; try discriminate HK.
-  - (* KSeq *)
-    apply (finish i j c a b fa fb psq1 psq2 s G1 G2); try (rewrite ?Ka, ?Kb; reflexivity); try assumption.
+  - (* KSeq, KSeq *)
+    apply (finish i j c a b (anyT (n_kids a)) fa fb psq1 psq2 s G1 G2); try (rewrite ?Ka, ?Kb; reflexivity); try assumption.
+    { intros [d q]. apply (atrue_seq d i a G1 Ka q). }
     rewrite (body_seq _ _ _ _ Ka Pa), (body_seq _ _ _ _ Kb Pb).
     pose proof (seq_align_sim _ _ _ fa fb L HK true true [] [] s) as Z.
     destruct Z as [Z|[Z|Z]]; [rewrite Z; left; reflexivity | rewrite Z; right; left; reflexivity |].
     destruct (seq_loop (P1 fa) true (n_kids a) [] s) as [r1 s1|s1|w1],
              (seq_loop (P2 fb) true (n_kids b) [] s) as [r2 s2|s2|w2]; try contradiction.
-    + destruct Z as (E & d1 & d2 & E1 & E2 & D). cbn [app] in E1, E2. subst s2 r1 r2.
+    + destruct Z as (E & d1 & d2 & E1 & E2 & D & F). cbn [app] in E1, E2. subst s2 r1 r2.
       destruct D as (D1 & D2 & D3). right; right.
       destruct d1 as [|v1 d1], d2 as [|v2 d2].
-      * split; [reflexivity | left; split; reflexivity].
+      * split; [reflexivity | left]. split; [reflexivity|]. split; [reflexivity|]. intro q. apply (F q). reflexivity.
       * exfalso. assert (X : v2 :: d2 = []) by (apply D3; reflexivity). discriminate.
       * exfalso. assert (X : v1 :: d1 = []) by (apply D3; reflexivity). discriminate.
       * split; [reflexivity|]. right; right; right. exists (v1 :: d1), (v2 :: d2).
         repeat split; try assumption; discriminate.
     + right; right. apply eqx_set_pos_l. apply eqx_set_pos_r. exact Z.
     + right; right. exact I.
+  - (* KSeq, KPlus: x (s x')* against e+[t] *)
+    destruct (n_kids a) as [|x [|st [|? ?]]] eqn:Kia; try discriminate HK.
+    destruct (n_kids b) as [|e [|? ?]] eqn:Kib; try discriminate HK.
+    destruct (n_sep b) as [t|] eqn:Seb; [|discriminate HK].
+    destruct (star_sep g1 st) as [[s0 x']|] eqn:SS; [|discriminate HK].
+    apply andb_true_iff in HK as [HK Ax']. apply andb_true_iff in HK as [HK Ax].
+    apply andb_true_iff in HK as [HK Hs]. apply andb_true_iff in HK as [Hx Hx'].
+    apply (finish i j c a b True fa fb psq1 psq2 s G1 G2); try (rewrite ?Ka, ?Kb; reflexivity); try assumption;
+      try (intros _; exact I).
+    rewrite (body_seq _ _ _ _ Ka Pa). rewrite (body_rep (P2 fb) fb b e s (or_intror Kb) Pb Kib). rewrite Kia, Kb, Seb.
+    pose proof (sepform_core x st s0 x' e t fa fb fb true [] s L SS Hx Hx' Hs Ax Ax') as Z.
+    destruct Z as [Z|[Z|Z]]; [rewrite Z; left; reflexivity | rewrite Z; right; left; reflexivity |].
+    destruct (seq_loop (P1 fa) true [x; st] [] s) as [r1 s1|s1|w1],
+             (rep_loop (P2 fb) e (Some t) true fb true [] s) as [r2 s2|s2|w2]; try contradiction.
+    + destruct Z as (E & d1 & d2 & E1 & E2 & D1 & D2 & N1 & N2). cbn [app] in E1. subst s2 r1 r2.
+      right; right. destruct d1 as [|v1 d1]; [congruence|].
+      split; [reflexivity|]. right; right; right. exists (v1 :: d1), d2. repeat split; try assumption; discriminate.
+    + right; right. apply eqx_set_pos_l. exact Z.
+    + right; right. exact I.
   - (* KChoice *)
     apply andb_true_iff in HK as [HK C2]. apply andb_true_iff in HK as [HK C1].
-    apply (finish i j c a b fa fb psq1 psq2 s G1 G2); try (rewrite ?Ka, ?Kb; reflexivity); try assumption.
+    apply (finish i j c a b True fa fb psq1 psq2 s G1 G2); try (rewrite ?Ka, ?Kb; reflexivity); try assumption;
+      try (intros _; exact I).
     rewrite (body_choice _ _ _ _ Ka Pa), (body_choice _ _ _ _ Kb Pb).
     pose proof (choice_sim _ _ HK C1 C2 fa fb L (pos s) s) as Z.
     destruct Z as [Z|[Z|Z]]; [rewrite Z; left; reflexivity | rewrite Z; right; left; reflexivity |].
@@ -741,26 +1104,29 @@ Proof.
     apply andb_true_iff in HK as [HK C2]. apply andb_true_iff in HK as [HK C1].
     unfold cho_ok in C1, C2. rewrite Kia in C1. rewrite Kib in C2. cbn [forallb] in C1, C2.
     rewrite andb_true_r in C1, C2.
-    apply (finish i j c a b fa fb psq1 psq2 s G1 G2); try (rewrite ?Ka, ?Kb; reflexivity); try assumption.
+    apply (finish i j c a b False fa fb psq1 psq2 s G1 G2); try (rewrite ?Ka, ?Kb; reflexivity); try assumption.
+    { intros [d q]. apply (atrue_kind_false d i a G1 (or_introl Ka) q). }
     unfold body. rewrite Ka, Kb, Kia, Kib.
     pose proof (kid_strong fa fb x y L HK false false s) as O.
     destruct O as [O|[O|O]]; [rewrite O; left; reflexivity | rewrite O; right; left; reflexivity |].
     destruct (P1 fa x false s) as [r1 s1|s1|w1], (P2 fb y false s) as [r2 s2|s2|w2]; try contradiction.
-    + destruct O as (E & V & N1 & N2). subst s2. destruct V as (Gd1 & Gd2 & T & Nn). specialize (Nn eq_refl).
+    + destruct O as (E & V & N1 & N2 & AT). subst s2. destruct V as (Gd1 & Gd2 & T & Nn). specialize (Nn eq_refl).
       right; right. split; [reflexivity|]. destruct (is_none r1) eqn:I1.
-      * right; left. destruct r1; try discriminate. destruct r2; try discriminate. split; reflexivity.
+      * right; left. destruct r1; try discriminate. destruct r2; try discriminate.
+        split; [reflexivity|]. split; [reflexivity|]. intro F; exact F.
       * right; right; right. exists [r1], [r2].
         assert (T1 : tt r1) by (apply fnn_tt; [apply (N1 EDEPTH C1) | assumption | assumption]).
         assert (T2 : tt r2) by (apply fnn_tt; [apply (N2 EDEPTH C2) | assumption | congruence]).
         repeat split; try (apply accok1; assumption); discriminate.
     + destruct O as (E & _). rewrite (eqx_set_pos (pos s) _ _ E). right; right.
-      split; [reflexivity | left; split; reflexivity].
+      split; [reflexivity | left]. split; [reflexivity|]. split; [reflexivity|]. intro F; exact F.
     + right; right. exact I.
   - (* KStar *)
     destruct (n_kids a) as [|x [|? ?]] eqn:Kia; try discriminate HK.
     destruct (n_kids b) as [|y [|? ?]] eqn:Kib; try discriminate HK.
     apply andb_true_iff in HK as [HK HS].
-    apply (finish i j c a b fa fb psq1 psq2 s G1 G2); try (rewrite ?Ka, ?Kb; reflexivity); try assumption.
+    apply (finish i j c a b False fa fb psq1 psq2 s G1 G2); try (rewrite ?Ka, ?Kb; reflexivity); try assumption.
+    { intros [d q]. apply (atrue_kind_false d i a G1 (or_intror Ka) q). }
     rewrite (body_rep (P1 fa) fa a x s (or_introl Ka) Pa Kia), (body_rep (P2 fb) fb b y s (or_introl Kb) Pb Kib).
     rewrite Ka, Kb.
     assert (SR : sep_rel (n_sep a) (n_sep b)).
@@ -769,10 +1135,10 @@ Proof.
     destruct Z as [Z|[Z|Z]]; [rewrite Z; left; reflexivity | rewrite Z; right; left; reflexivity |].
     destruct (rep_loop (P1 fa) x (n_sep a) false fa true [] s) as [r1 s1|s1|w1],
              (rep_loop (P2 fb) y (n_sep b) false fb true [] s) as [r2 s2|s2|w2]; try contradiction.
-    + destruct Z as (E & d1 & d2 & E1 & E2 & D). cbn [app] in E1, E2. subst s2 r1 r2.
+    + destruct Z as (E & d1 & d2 & E1 & E2 & D & _). cbn [app] in E1, E2. subst s2 r1 r2.
       destruct D as (D1 & D2 & D3). right; right. split; [reflexivity|].
       destruct d1 as [|v1 d1], d2 as [|v2 d2].
-      * right; right; left. repeat split; left; assumption.
+      * right; right; left. repeat split; try (left; assumption). intro F; exact F.
       * exfalso. assert (X : v2 :: d2 = []) by (apply D3; reflexivity). discriminate.
       * exfalso. assert (X : v1 :: d1 = []) by (apply D3; reflexivity). discriminate.
       * right; right; right. exists (v1 :: d1), (v2 :: d2). repeat split; try assumption; discriminate.
@@ -782,7 +1148,9 @@ Proof.
     destruct (n_kids a) as [|x [|? ?]] eqn:Kia; try discriminate HK.
     destruct (n_kids b) as [|y [|? ?]] eqn:Kib; try discriminate HK.
     apply andb_true_iff in HK as [HK HS].
-    apply (finish i j c a b fa fb psq1 psq2 s G1 G2); try (rewrite ?Ka, ?Kb; reflexivity); try assumption.
+    apply (finish i j c a b (exists d, atrue g1 ne d x = true) fa fb psq1 psq2 s G1 G2);
+      try (rewrite ?Ka, ?Kb; reflexivity); try assumption.
+    { intros [d q]. apply (atrue_plus d i a x G1 Ka Kia q). }
     rewrite (body_rep (P1 fa) fa a x s (or_intror Ka) Pa Kia), (body_rep (P2 fb) fb b y s (or_intror Kb) Pb Kib).
     rewrite Ka, Kb.
     assert (SR : sep_rel (n_sep a) (n_sep b)).
@@ -791,10 +1159,11 @@ Proof.
     destruct Z as [Z|[Z|Z]]; [rewrite Z; left; reflexivity | rewrite Z; right; left; reflexivity |].
     destruct (rep_loop (P1 fa) x (n_sep a) true fa true [] s) as [r1 s1|s1|w1],
              (rep_loop (P2 fb) y (n_sep b) true fb true [] s) as [r2 s2|s2|w2]; try contradiction.
-    + destruct Z as (E & d1 & d2 & E1 & E2 & D). cbn [app] in E1, E2. subst s2 r1 r2.
+    + destruct Z as (E & d1 & d2 & E1 & E2 & D & F). cbn [app] in E1, E2. subst s2 r1 r2.
       destruct D as (D1 & D2 & D3). right; right. split; [reflexivity|].
       destruct d1 as [|v1 d1], d2 as [|v2 d2].
-      * right; right; left. repeat split; right; assumption.
+      * right; right; left. repeat split; try (right; assumption).
+        intro q. apply F; [|reflexivity]. split; [reflexivity|]. split; [reflexivity | exact q].
       * exfalso. assert (X : v2 :: d2 = []) by (apply D3; reflexivity). discriminate.
       * exfalso. assert (X : v1 :: d1 = []) by (apply D3; reflexivity). discriminate.
       * right; right; right. exists (v1 :: d1), (v2 :: d2). repeat split; try assumption; discriminate.
@@ -810,7 +1179,6 @@ Proof.
     apply (step_term i j c a b fa fb psq1 psq2 s L G1 G2); try assumption; rewrite ?Ka, ?Kb; try reflexivity; exact E.
 Qed.
 
-
 Lemma step_unwrap i j c y fa fb psq1 psq2 s :
   S fa + fb <= n -> unit_kid g2 j = Some y -> pin_any R i y = true ->
   (negb c || efree g1 EDEPTH i)%bool = true ->
@@ -822,20 +1190,50 @@ Proof.
   pose proof (kid_any (S fa) fb i y L H psq1 true s) as O.
   destruct O as [O|[O|O]]; [left; exact O | rewrite O in C; right; left; exact C |].
   destruct (P1 (S fa) i psq1 s) as [r1 s1|s1|w1], (P2 fb y true s) as [r2 s2|s2|w2]; try contradiction.
-  - destruct O as (E & V & N1 & N2). subst s2. destruct V as (Gd1 & Gd2 & T & _). right; right.
+  - destruct O as (E & V & N1 & N2 & AT). subst s2. destruct V as (Gd1 & Gd2 & T & _). right; right.
     destruct (truthy r2) eqn:T2; cbn [app] in C; rewrite C.
     + assert (TT : tt (post j nd (RList [r2]))).
       { apply post_list_tt; [exact Su | apply accok1; split; [exact T2 | apply Gd2; exact T2] | discriminate]. }
       split; [reflexivity|]. split.
       * split; [exact Gd1|]. split; [apply tt_good; exact TT|]. split; [destruct TT; congruence|].
         intros _. rewrite (tt_not_none r1 T), (tt_not_none _ (proj1 TT)). reflexivity.
-      * split; [exact N1 | intros; apply fnn_of_tt; exact TT].
+      * split; [exact N1 | split; [intros; apply fnn_of_tt; exact TT | exact AT]].
     + split; [reflexivity|]. split.
       * split; [exact Gd1|]. split; [apply good_falsy; reflexivity|]. split; [exact T|].
         intro Ec. subst c. cbn [negb orb] in Hc. rewrite (N1 EDEPTH Hc T). reflexivity.
-      * split; [exact N1 | intros; apply fnn_none].
+      * split; [exact N1 | split; [intros; apply fnn_none | exact AT]].
   - rewrite C. destruct O as (E & Q1 & Q2). right; right.
     split; [apply eqx_set_pos_r; apply eqx_set_pos_r; exact E|]. split; [exact Q1 | intros _; apply pos_set_pos].
+  - rewrite C. right; right. exact I.
+Qed.
+
+Lemma step_unwrap_l i j c x fa fb psq1 psq2 s :
+  fa + S fb <= n -> unit_kid g1 i = Some x -> pin_any R x j = true ->
+  (negb c || efree g2 EDEPTH j)%bool = true ->
+  orel i j c s (P1 (S fa) i psq1 s) (P2 (S fb) j psq2 s).
+Proof.
+  intros L U H Hc. unfold unit_kid in U. destruct (seq_kids g1 i) as [[|x' [|? ?]]|] eqn:SK; try discriminate.
+  inversion U; subst x'. destruct (seq_kids_node g1 i [x] SK) as (nd & G & K & Pl & Su & Ki).
+  pose proof (seq_node_cases g1 input orc fa i nd psq1 s G K Pl Su) as C. rewrite Ki in C. cbn [seq_loop] in C.
+  pose proof (kid_any fa (S fb) x j L H true psq2 s) as O.
+  destruct O as [O|[O|O]]; [rewrite O in C; left; exact C | right; left; exact O |].
+  destruct (P1 fa x true s) as [r1 s1|s1|w1], (P2 (S fb) j psq2 s) as [r2 s2|s2|w2]; try contradiction.
+  - destruct O as (E & V & N1 & N2 & AT). subst s2. destruct V as (Gd1 & Gd2 & T & _). right; right.
+    destruct (truthy r1) eqn:T1; cbn [app] in C; rewrite C.
+    + assert (TT : tt (post i nd (RList [r1]))).
+      { apply post_list_tt; [exact Su | apply accok1; split; [exact T1 | apply Gd1; exact T1] | discriminate]. }
+      split; [reflexivity|]. split.
+      * split; [apply tt_good; exact TT|]. split; [exact Gd2|]. split; [destruct TT; congruence|].
+        intros _. rewrite (tt_not_none _ (proj1 TT)), (tt_not_none r2 (eq_sym T)). reflexivity.
+      * split; [intros; apply fnn_of_tt; exact TT|]. split; [exact N2 | intros _ _; apply TT].
+    + split; [reflexivity|]. split.
+      * split; [apply good_falsy; reflexivity|]. split; [exact Gd2|]. split; [exact T|].
+        intro Ec. subst c. cbn [negb orb] in Hc. rewrite (N2 EDEPTH Hc (eq_sym T)). reflexivity.
+      * split; [intros; apply fnn_none|]. split; [exact N2|].
+        intros d q. destruct (atrue_seq0 d i nd G K q) as [d' q']. rewrite Ki in q'. cbn [existsb] in q'.
+        rewrite orb_false_r in q'. specialize (AT d' q'). congruence.
+  - rewrite C. destruct O as (E & Q1 & Q2). right; right.
+    split; [apply eqx_set_pos_l; apply eqx_set_pos_l; exact E|]. split; [intros _; apply pos_set_pos | exact Q2].
   - rewrite C. right; right. exact I.
 Qed.
 
@@ -845,10 +1243,12 @@ Proof.
   destruct fa as [|fa]; [left; reflexivity|]. destruct fb as [|fb]; [right; left; reflexivity|].
   unfold local_ok in Hl. destruct (get_node g1 i) as [a|] eqn:G1; [|discriminate].
   destruct (get_node g2 j) as [b|] eqn:G2; [|discriminate].
-  apply orb_true_iff in Hl as [Hl|Hl].
+  apply orb_true_iff in Hl as [Hl|Hl]; [apply orb_true_iff in Hl as [Hl|Hl]|].
   - apply (step_struct i j c a b); try assumption. lia.
   - destruct (unit_kid g2 j) as [y|] eqn:U; [|discriminate]. apply andb_true_iff in Hl as [H1 H2].
     apply (step_unwrap i j c y); try assumption. lia.
+  - destruct (unit_kid g1 i) as [x|] eqn:U; [|discriminate]. apply andb_true_iff in Hl as [H1 H2].
+    apply (step_unwrap_l i j c x); try assumption. lia.
 Qed.
 
 End Step.
@@ -892,38 +1292,48 @@ Proof.
   destruct (f y) eqn:E; [discriminate|]. destruct HIn as [->|HIn]; [exact E | apply IH; assumption].
 Qed.
 
-Theorem rel_sound g1 g2 R input orc :
-  frame_ok g1 g2 R = true ->
-  (forall p, In p R -> local_ok g1 g2 R p = true \/ sem_ok g1 g2 input orc p) ->
-  forall cfg f1 f2, outcome_rel (run g1 cfg orc false f1 input) (run g2 cfg orc false f2 input).
-Proof. intros HF HR cfg f1 f2. apply (run_rel g1 g2 R input orc HR HF). Qed.
+(* the oracle hypothesis: the listed oracle ids never report an empty match *)
+Definition orc_nonempty (ne : list nat) (orc : nat -> nat -> option nat) : Prop :=
+  forall o p, In o ne -> orc o p <> Some 0.
 
-Theorem diffs_sound seeds g1 g2 :
-  peg_equiv_diffs seeds g1 g2 = [] ->
-  forall input orc cfg f1 f2, outcome_rel (run g1 cfg orc false f1 input) (run g2 cfg orc false f2 input).
+Theorem rel_sound g1 g2 ne R input orc :
+  orc_nonempty ne orc ->
+  frame_ok g1 g2 R = true ->
+  (forall p, In p R -> local_ok g1 g2 ne R p = true \/ sem_ok g1 g2 ne input orc p) ->
+  forall cfg f1 f2, outcome_rel (run g1 cfg orc false f1 input) (run g2 cfg orc false f2 input).
+Proof. intros Hne HF HR cfg f1 f2. apply (run_rel g1 g2 ne R input orc Hne HR HF). Qed.
+
+Theorem diffs_sound ne seeds g1 g2 :
+  peg_equiv_diffs ne seeds g1 g2 = [] ->
+  forall input orc, orc_nonempty ne orc ->
+  forall cfg f1 f2, outcome_rel (run g1 cfg orc false f1 input) (run g2 cfg orc false f2 input).
 Proof.
-  unfold peg_equiv_diffs. intros H input orc cfg f1 f2.
+  unfold peg_equiv_diffs. intros H input orc Hne cfg f1 f2.
   apply app_eq_nil in H as [H1 H2].
-  apply (rel_sound g1 g2 (reach_all g1 g2 seeds)).
+  apply (rel_sound g1 g2 ne (reach_all g1 g2 seeds) input orc Hne).
   - destruct (frame_ok g1 g2 (reach_all g1 g2 seeds)); [reflexivity | discriminate].
-  - intros p HIn. left. pose proof (filter_nil _ _ H2 p HIn) as E. cbv beta in E. destruct (local_ok g1 g2 (reach_all g1 g2 seeds) p); [reflexivity | simpl in E; discriminate].
+  - intros p HIn. left. pose proof (filter_nil _ _ H2 p HIn) as E. cbv beta in E.
+    destruct (local_ok g1 g2 ne (reach_all g1 g2 seeds) p); [reflexivity | simpl in E; discriminate].
 Qed.
 
 (* acceptance and error position, when neither run ran out of fuel *)
-Corollary diffs_sound_accepts seeds g1 g2 :
-  peg_equiv_diffs seeds g1 g2 = [] ->
-  forall input orc cfg f1 f2,
+Corollary diffs_sound_accepts ne seeds g1 g2 :
+  peg_equiv_diffs ne seeds g1 g2 = [] ->
+  forall input orc cfg f1 f2, orc_nonempty ne orc ->
   run g1 cfg orc false f1 input <> Aborted 0 -> run g2 cfg orc false f2 input <> Aborted 0 ->
   accepts (run g1 cfg orc false f1 input) = accepts (run g2 cfg orc false f2 input)
   /\ (forall p, run g1 cfg orc false f1 input = SyntaxErr p <-> run g2 cfg orc false f2 input = SyntaxErr p).
 Proof.
-  intros H input orc cfg f1 f2 A1 A2. pose proof (diffs_sound seeds g1 g2 H input orc cfg f1 f2) as O.
+  intros H input orc cfg f1 f2 Hne A1 A2. pose proof (diffs_sound ne seeds g1 g2 H input orc Hne cfg f1 f2) as O.
   destruct O as [O|[O|O]]; [contradiction | contradiction |].
   destruct (run g1 cfg orc false f1 input), (run g2 cfg orc false f2 input); try contradiction.
   - split; [reflexivity | intro p; split; discriminate].
   - subst. split; [reflexivity | intro q; split; intro E; exact E].
   - split; [reflexivity | intro p; split; discriminate].
 Qed.
+
+Lemma orc_nonempty_nil orc : orc_nonempty [] orc.
+Proof. intros o p []. Qed.
 
 (* ---------------------------------------------------------------- small witnesses *)
 (* Model: 'a' 'x'* ;  without and with textX-style wrappers around the two parts *)
@@ -942,7 +1352,7 @@ Definition cfg0 : config := mkConfig true [9; 10; 13; 32]%N.
 Definition no_orc (o p : nat) : option nat := None.
 
 Lemma witness_equal :
-  peg_equiv_diffs [] g_plain g_wrapped = [] /\
+  peg_equiv_diffs [] [] g_plain g_wrapped = [] /\
   accepts (run g_plain cfg0 no_orc false 50 [97; 32; 120; 120]%N) = true /\
   accepts (run g_wrapped cfg0 no_orc false 50 [97; 32; 120; 120]%N) = true /\
   accepts (run g_plain cfg0 no_orc false 50 [97; 121]%N) = false /\
@@ -950,7 +1360,64 @@ Lemma witness_equal :
 Proof. vm_compute. repeat split. Qed.
 
 Lemma witness_different :
-  peg_equiv_diffs [] g_plain g_other <> [] /\
+  peg_equiv_diffs [] [] g_plain g_other <> [] /\
   accepts (run g_plain cfg0 no_orc false 50 [97; 121]%N) = false /\
   accepts (run g_other cfg0 no_orc false 50 [97; 121]%N) = true.
 Proof. vm_compute. repeat split. discriminate. Qed.
+
+(* Model: '[' 'x' (',' 'x')* ']'   against   '[' 'x'+[','] ']'  (segment form), and
+   Model: 'x' (',' 'x')*           against   'x'+[',']          (whole-node form) *)
+Definition g_sep1 : grammar :=
+  mkGrammar [mk KSeq [1; 8] true; mk KSeq [2; 3; 4; 7] true; mk (KStr [91]%N None) [] false; mk (KStr [120]%N None) [] false;
+             mk KStar [5] false; mk KSeq [6; 3] false; mk (KStr [44]%N None) [] false; mk (KStr [93]%N None) [] false;
+             mk KEOF [] false] 0 None.
+Definition g_sep2 : grammar :=
+  mkGrammar [mk KSeq [1; 7] true; mk KSeq [2; 3; 6] true; mk (KStr [91]%N None) [] false;
+             mkNode KPlus [4] (Some 5) false [] true false None None; mk (KStr [120]%N None) [] false;
+             mk (KStr [44]%N None) [] false; mk (KStr [93]%N None) [] false; mk KEOF [] false] 0 None.
+Definition g_sep3 : grammar :=
+  mkGrammar [mk KSeq [1; 6] true; mk KSeq [2; 3] true; mk (KStr [120]%N None) [] false;
+             mk KStar [4] false; mk KSeq [5; 2] false; mk (KStr [44]%N None) [] false; mk KEOF [] false] 0 None.
+Definition g_sep4 : grammar :=
+  mkGrammar [mk KSeq [1; 4] true; mkNode KPlus [2] (Some 3) false [] true false None None; mk (KStr [120]%N None) [] false;
+             mk (KStr [44]%N None) [] false; mk KEOF [] false] 0 None.
+
+Lemma witness_sep :
+  peg_equiv_diffs [] [] g_sep1 g_sep2 = [] /\ peg_equiv_diffs [] [] g_sep3 g_sep4 = [] /\
+  accepts (run g_sep1 cfg0 no_orc false 60 [91; 120; 44; 32; 120; 93]%N) = true /\
+  accepts (run g_sep2 cfg0 no_orc false 60 [91; 120; 44; 32; 120; 93]%N) = true /\
+  accepts (run g_sep1 cfg0 no_orc false 60 [91; 120; 44; 93]%N) = false /\
+  accepts (run g_sep2 cfg0 no_orc false 60 [91; 120; 44; 93]%N) = false /\
+  accepts (run g_sep3 cfg0 no_orc false 60 [120; 44; 120; 44; 120]%N) = true /\
+  accepts (run g_sep4 cfg0 no_orc false 60 [120; 44; 120; 44; 120]%N) = true.
+Proof. vm_compute. repeat split. Qed.
+
+(* ---------------------------------------------------------------- memoization on (through C19's theorem)
+   For grammars in the class of Proofs/PegMemo.v (ctx_constant: no rule-level ws/skipws, no eolterm, no
+   unordered group, no comment model) the memoized interpreter returns what the un-memoized one returns, so
+   the checker is sound for memoization=True as well. *)
+Corollary diffs_sound_memo ne seeds g1 g2 :
+  ctx_constant g1 = true -> ctx_constant g2 = true ->
+  peg_equiv_diffs ne seeds g1 g2 = [] ->
+  forall input orc cfg f1 f2, orc_nonempty ne orc ->
+  not_aborted (run g1 cfg orc false f1 input) -> not_aborted (run g2 cfg orc false f2 input) ->
+  PegEquiv.accepts (run g1 cfg orc true f1 input) = PegEquiv.accepts (run g2 cfg orc true f2 input)
+  /\ (forall p, run g1 cfg orc true f1 input = SyntaxErr p <-> run g2 cfg orc true f2 input = SyntaxErr p).
+Proof.
+  intros C1 C2 H input orc cfg f1 f2 Hne N1 N2.
+  rewrite (memo_safe g1 input orc C1 cfg f1 N1), (memo_safe g2 input orc C2 cfg f2 N2).
+  apply (diffs_sound_accepts ne seeds g1 g2 H input orc cfg f1 f2 Hne).
+  - intro E. rewrite E in N1. exact N1.
+  - intro E. rewrite E in N2. exact N2.
+Qed.
+
+Lemma witness_memo :
+  ctx_constant g_sep1 = true /\ ctx_constant g_sep2 = true /\
+  PegEquiv.accepts (run g_sep1 cfg0 no_orc true 60 [91; 120; 44; 32; 120; 93]%N) = true /\
+  PegEquiv.accepts (run g_sep2 cfg0 no_orc true 60 [91; 120; 44; 32; 120; 93]%N) = true.
+Proof. vm_compute. repeat split. Qed.
+
+(* wrappers and nested sequences on the FIRST grammar *)
+Lemma witness_swapped :
+  peg_equiv_diffs [] [] g_wrapped g_plain = [] /\ peg_equiv_diffs [] [] g_other g_plain <> [].
+Proof. vm_compute. split; [reflexivity | discriminate]. Qed.
